@@ -1340,7 +1340,11 @@ impl<'p> World<'p> {
                 let h = self.node_key(node, *slot)?;
                 let rec = self.keys.get(slot)?.clone();
                 let bk = self.node_bk(node)?;
-                let raw = backend(bk).key_raw(rec.kind, &h).ok()?;
+                // identity of the key: derived without the library where its input bytes allow it
+                let raw = match rec.raw.as_ref().and_then(|r| canonical_key_bytes(rec.family, rec.kind, r)) {
+                    Some(c) => c,
+                    None => backend(bk).key_raw(rec.kind, &h).ok()?,
+                };
                 Some((raw, Some(h)))
             }
         }
